@@ -99,3 +99,133 @@ def by_repair(
         return ok
 
     return attribute
+
+
+# --------------------------------------------------------------------------------------------
+# attribution by patch: the finding names a small in-process repair of tealer (kept in /verif,
+# never written to /repo); a violation is attributed iff it disappears when the same case is
+# re-run with the repair active.  A different defect on the same program persists and is
+# reported.
+
+
+def _patch_appid_partition() -> Any:
+    """Correct partition for ApplicationID tests: a zero ApplicationID is also what every
+    non-application transaction carries."""
+    import contextlib  # pylint: disable=import-outside-toplevel
+    from tealer.analyses.dataflow.transaction_context import txn_types as tt  # pylint: disable=import-outside-toplevel
+    from tealer.teal.instructions import instructions as ins_mod  # pylint: disable=import-outside-toplevel
+    from tealer.teal.instructions.transaction_field import ApplicationID  # pylint: disable=import-outside-toplevel
+    from tealer.utils.teal_enums import TealerTransactionType as T  # pylint: disable=import-outside-toplevel
+
+    non_appl = {T.Pay, T.KeyReg, T.Acfg, T.Axfer}
+
+    def reads_appid(sv: Any) -> bool:
+        i = getattr(sv, "instruction", None)
+        return isinstance(i, (ins_mod.Txn, ins_mod.Gtxn, ins_mod.Gtxns)) and isinstance(i.field, ApplicationID)
+
+    def involves(sv: Any) -> bool:
+        if reads_appid(sv):
+            return True
+        return any(reads_appid(a) for a in getattr(sv, "args", []))
+
+    @contextlib.contextmanager
+    def cm() -> Any:
+        orig = tt.TxnType._get_asserted_transaction_types  # pylint: disable=protected-access
+
+        def patched(self: Any, key: str, sv: Any) -> Any:
+            t, f = orig(self, key, sv)
+            if involves(sv):
+                t, f = set(t), set(f)
+                if T.ApplCreation in t and T.ApplCreation not in f:
+                    t |= non_appl
+                elif T.ApplCreation in f and T.ApplCreation not in t:
+                    f |= non_appl
+            return t, f
+
+        tt.TxnType._get_asserted_transaction_types = patched  # pylint: disable=protected-access
+        try:
+            yield
+        finally:
+            tt.TxnType._get_asserted_transaction_types = orig  # pylint: disable=protected-access
+
+    return cm()
+
+
+def _patch_kind_partitions() -> Any:
+    """Correct partitions for ApplicationID and OnCompletion tests: a zero ApplicationID and a
+    zero (NoOp) OnCompletion are also what every non-application transaction carries."""
+    import contextlib  # pylint: disable=import-outside-toplevel
+    from tealer.analyses.dataflow.transaction_context import txn_types as tt  # pylint: disable=import-outside-toplevel
+    from tealer.teal.instructions import instructions as ins_mod  # pylint: disable=import-outside-toplevel
+    from tealer.teal.instructions.transaction_field import ApplicationID, OnCompletion  # pylint: disable=import-outside-toplevel
+    from tealer.utils.teal_enums import TealerTransactionType as T  # pylint: disable=import-outside-toplevel
+
+    non_appl = {T.Pay, T.KeyReg, T.Acfg, T.Axfer}
+
+    def reads(sv: Any, fld: Any) -> bool:
+        i = getattr(sv, "instruction", None)
+        return isinstance(i, (ins_mod.Txn, ins_mod.Gtxn, ins_mod.Gtxns)) and isinstance(i.field, fld)
+
+    def involves(sv: Any, fld: Any) -> bool:
+        return reads(sv, fld) or any(reads(a, fld) for a in getattr(sv, "args", []))
+
+    @contextlib.contextmanager
+    def cm() -> Any:
+        orig = tt.TxnType._get_asserted_transaction_types  # pylint: disable=protected-access
+
+        def patched(self: Any, key: str, sv: Any) -> Any:
+            t, f = orig(self, key, sv)
+            if involves(sv, ApplicationID):
+                t, f = set(t), set(f)
+                if T.ApplCreation in t and T.ApplCreation not in f:
+                    t |= non_appl
+                elif T.ApplCreation in f and T.ApplCreation not in t:
+                    f |= non_appl
+            elif involves(sv, OnCompletion) and len(t) != 12 and len(f) != 12:
+                t, f = set(t), set(f)
+                # the side on which OnCompletion may be NoOp (0) also admits non-application kinds
+                if T.ApplNoOp in t:
+                    t |= non_appl
+                if T.ApplNoOp in f:
+                    f |= non_appl
+            return t, f
+
+        tt.TxnType._get_asserted_transaction_types = patched  # pylint: disable=protected-access
+        try:
+            yield
+        finally:
+            tt.TxnType._get_asserted_transaction_types = orig  # pylint: disable=protected-access
+
+    return cm()
+
+
+PATCHES: Dict[str, Callable[[], Any]] = {
+    "appid-partition": _patch_appid_partition,
+    "kind-partitions": _patch_kind_partitions,
+}
+
+
+def by_patch(worker: Callable[[Any, Any], None]) -> Callable[[Dict[str, Any], Dict[str, Any]], bool]:
+    from mc.runner import Result  # pylint: disable=import-outside-toplevel
+
+    rerun_cache: Dict[str, Any] = {}
+
+    def attribute(entry: Dict[str, Any], v: Dict[str, Any]) -> bool:
+        mk = PATCHES.get(entry.get("patch", ""))
+        if mk is None:
+            return False
+        item = v["item"]
+        if isinstance(item, list):
+            item = tuple(item)
+        rkey = entry["id"] + "\0" + repr(item)
+        if rkey not in rerun_cache:
+            if len(rerun_cache) > 64:
+                rerun_cache.clear()
+            res = Result()
+            with mk():
+                worker(item, res)
+            rerun_cache[rkey] = None if res.errors else [(x["kind"], place_of(x)) for x in res.violations]
+        left = rerun_cache[rkey]
+        return left is not None and (v["kind"], place_of(v)) not in left
+
+    return attribute
